@@ -114,6 +114,29 @@ TAIL_FMT = """Definition gen_fmt_tail (tally0 contest_tally : option tally_dict)
   end.
 """
 
+TAIL_MAA = """(* one contest `con` of the loop `for c, con in contests.items()` (the contests are independent of one another) *)
+(* losrs = list(set(con.candidates) - set(winrs)): the order of a Python set is unspecified; this is the enumeration in
+   candidate order, and gen_maa_losers_spec (lemma file) is the order-free fact every enumeration shares *)
+Definition gen_maa_losers (candidates winrs : list cand) : list cand :=
+  filter (fun c => negb (existsb (Z.eqb c) winrs)) (nodup Z.eq_dec candidates).
+Inductive maa_made :=
+| MAA_plurality (pairs : list (cand * cand))                  (* Assertion.make_plurality_assertions(contest=con, winner=winrs, loser=losrs, ...) *)
+| MAA_supermajority (w : option cand) (cands : list cand) (share_to_win : Q)
+                                                              (* Assertion.make_supermajority_assertion(contest=con, winner=winrs[0], loser=losrs, share_to_win=con.share_to_win, ...) *)
+| MAA_from_json                                               (* Assertion.make_assertions_from_json(contest=con, candidates=con.candidates, json_assertions=con.assertion_json, ...) *)
+| MAA_not_implemented.                                        (* raise NotImplementedError *)
+Definition gen_maa_tail (choice_function : scf) (candidates winrs : list cand) (share_to_win : Q) : maa_made :=
+  let losrs := gen_maa_losers candidates winrs in             (* winrs = con.winner; losrs = list(set(con.candidates) - set(winrs)) *)
+  match choice_function with
+  | PLURALITY => MAA_plurality (gen_mpa_pairs winrs losrs)    (* if scf == PLURALITY *)
+  | SUPERMAJORITY =>                                          (* elif scf == SUPERMAJORITY; winrs[0] raises IndexError on an empty list *)
+      MAA_supermajority (hd_error winrs)
+        (match hd_error winrs with Some w => gen_msa_cands w losrs | None => [] end) share_to_win
+  | IRV => MAA_from_json                                      (* elif scf == IRV *)
+  | APPROVAL => MAA_not_implemented                           (* else: raise NotImplementedError *)
+  end.
+"""
+
 PL_TEST = ("self.contest.choice_function == Contest.SOCIAL_CHOICE_FUNCTION.PLURALITY or "
            "self.contest.choice_function == Contest.SOCIAL_CHOICE_FUNCTION.APPROVAL")
 
@@ -189,4 +212,30 @@ TARGETS = [
                    ("else",),
                    ("text", "raise NotImplementedError(f'social choice function {self.contest.choice_function} not supported')"),
                    ("endif",), ("endif",)], tail=TAIL_FMT),
+    dict(name="maa", kind="skeleton", file=AUDIT, func="Assertion.make_all_assertions",
+         skeleton=[("for", "(c, con) in contests.items()"),
+                   ("text", "scf = con.choice_function"),
+                   ("text", "winrs = con.winner"),
+                   ("text", "losrs = list(set(con.candidates) - set(winrs))"),
+                   ("text", "test = con.test"),
+                   ("text", "test_kwargs = con.test_kwargs"),
+                   ("text", "estim = con.estim"),
+                   ("text", "bet = con.bet"),
+                   ("if", "scf == Contest.SOCIAL_CHOICE_FUNCTION.PLURALITY"),
+                   ("text", "contests[c].assertions = Assertion.make_plurality_assertions(contest=con, winner=winrs, "
+                            "loser=losrs, test=test, test_kwargs=test_kwargs, estim=estim, bet=bet)"),
+                   ("else",),
+                   ("if", "scf == Contest.SOCIAL_CHOICE_FUNCTION.SUPERMAJORITY"),
+                   ("text", "contests[c].assertions = Assertion.make_supermajority_assertion(contest=con, winner=winrs[0], "
+                            "loser=losrs, share_to_win=con.share_to_win, test=test, test_kwargs=test_kwargs, estim=estim, bet=bet)"),
+                   ("else",),
+                   ("if", "scf == Contest.SOCIAL_CHOICE_FUNCTION.IRV"),
+                   ("text", "contests[c].assertions = Assertion.make_assertions_from_json(contest=con, "
+                            "candidates=con.candidates, json_assertions=con.assertion_json, test=test, "
+                            "test_kwargs=test_kwargs, estim=estim, bet=bet)"),
+                   ("else",),
+                   ("text", "raise NotImplementedError(f'Social choice function {scf} is not implemented.')"),
+                   ("endif",), ("endif",), ("endif",),
+                   ("endfor",),
+                   ("text", "return True")], tail=TAIL_MAA),
 ]
